@@ -1137,9 +1137,22 @@ structure SchemaOk (s : Spec) : Prop where
   operations : ∀ o ∈ s.operations, o.name.isSome ∧ o.opType.isSome
   indices : ∀ i ∈ s.indices, i.name.isSome
   dataStreams : ∀ d ∈ s.dataStreams, d.isSome
+  types : ∀ p ∈ s.typed, typeOk p.1 p.2 = true
 
 theorem schemaCheck_none {s : Spec} (h : schemaCheck s = none) : SchemaOk s := by
   unfold schemaCheck at h
+  split at h
+  · simp at h
+  rename_i htyped
+  have htypes : ∀ p ∈ s.typed, typeOk p.1 p.2 = true := by
+    intro p hp
+    cases hk : typeOk p.1 p.2 with
+    | true => rfl
+    | false =>
+      exfalso
+      apply htyped
+      exact List.any_eq_true.mpr ⟨p, hp, by simp [hk]⟩
+  unfold schemaStructure at h
   split at h
   · simp at h
   · rename_i h1
@@ -1162,7 +1175,7 @@ theorem schemaCheck_none {s : Spec} (h : schemaCheck s = none) : SchemaOk s := b
               have i2 := firstSome_none.mp h2
               have i3 := firstSome_none.mp h3
               have i4 := firstSome_none.mp h4
-              refine ⟨?_, ?_, fun c hc => schemaCorpus_none (i3 c hc), ?_, ?_, ?_⟩
+              refine ⟨?_, ?_, fun c hc => schemaCorpus_none (i3 c hc), ?_, ?_, ?_, htypes⟩
               · intro c hc
                 simp only [challengeSpecsOf, List.mem_append, Option.mem_toList, Option.mem_def] at hc
                 rcases hc with (hc | hc) | hc
